@@ -775,7 +775,7 @@ class Builder:
                 return N("set", e, cs=cs, min=rg[0], max=rg[1])
             if short == "take_until":
                 rg = self._range(args[0])
-                a = args[1]
+                a = self.resolve_const(args[1], env)
                 if rg is None or a["k"] != "lit":
                     return N("opaque", e, src=src(e))
                 return N("until", e, min=rg[0], max=rg[1], s=a["v"])
